@@ -7,11 +7,16 @@
                      is_global_fail_set over the call tree.
    Calldata is a list of byte values (the calldata under a valuation of its symbols); reads
    past the end give zeros (ByteVec semantics, property C07).  z3 terms are modelled by their
-   SMT-LIB meaning (Base/SmtBV).  Only the datatypes `handler`, `descr` come from the Spec file.
+   SMT-LIB meaning (Base/SmtBV).  Only the datatypes `handler`, `descr` (and, for `pstep_of`,
+   `pstep`) come from the Spec file.
+   Regenerated from the source on every run and used here: the exception class raised by the
+   bytes[]/string[] arm of vm_assert_binary (Gen/GenAssertArms.v), halmos' exception hierarchy
+   (Gen/GenExcHierarchy.v) and the except clauses of SEVM.run (Gen/GenRunExcepts.v).
    No proofs here. *)
 From Coq Require Import ZArith List Bool String Ascii.
-From HV Require Import Base.SmtBV Spec.AssertSpec.
+From HV Require Import Base.SmtBV Spec.AssertSpec Gen.GenAssertArms Gen.GenExcHierarchy Gen.GenRunExcepts.
 Import ListNotations.
+Open Scope list_scope.
 Open Scope Z_scope.
 
 (* ------------------------------------------------------------------ strings (python str ops) *)
@@ -184,8 +189,23 @@ Definition mk_cond (bop : string) (v1 v2 : list Z) : cres :=
 Inductive hres :=
   | RCond (c : bool) (msg : option (list Z))   (* VmAssertion(cond, msg) *)
   | RValueError                                (* mk_cond raised *)
-  | RNotImplemented                            (* bytes[] / string[] *)
+  | RRaise (cls : string)                      (* bytes[] / string[]: `raise cls(...)` *)
   | RUnicodeError.                             (* the concrete message is not valid UTF-8 *)
+
+(* the class raised by the (arr, is_bytes) arm of vm_assert_binary, as the source has it *)
+Definition arm_of (arr is_bytes : bool) : option gen_arm :=
+  option_map snd (find (fun x => Bool.eqb (fst (fst x)) arr && Bool.eqb (snd (fst x)) is_bytes) binary_arms).
+Definition unsupported_class : string :=
+  match arm_of true true with Some (GRaise c) => c | _ => EmptyString end.
+
+(* the Python class of the exception a handler result stands for *)
+Definition hres_raises (r : hres) : option string :=
+  match r with
+  | RCond _ _ => None
+  | RValueError => Some "ValueError"%string
+  | RRaise c => Some c
+  | RUnicodeError => Some "UnicodeDecodeError"%string
+  end.
 
 Definition with_msg (c : cres) (log : bool) (data : list Z) (idx : Z) : hres :=
   match c with
@@ -205,7 +225,7 @@ Definition run_handler (h : handler) (arg : list Z) : hres :=
       with_msg (mk_cond bop (extract_bytes_argument arg 0) (extract_bytes_argument arg 1)) log arg 2
   | HArr bop log =>
       with_msg (mk_cond bop (extract_bytes32_array_argument arg 0) (extract_bytes32_array_argument arg 1)) log arg 2
-  | HNotImpl _ _ => RNotImplemented
+  | HNotImpl _ _ => RRaise unsupported_class
   | HUnary expected log =>
       let actual := extract_word arg 4 in
       with_msg (CBool (if expected then negb (actual =? 0) else actual =? 0)) log arg 1
@@ -213,6 +233,41 @@ Definition run_handler (h : handler) (arg : list Z) : hres :=
 
 (* vm.assume: the condition appended to the path *)
 Definition assume_cond (arg : list Z) : bool := negb (extract_word arg 4 =? 0).
+
+(* ------------------------------------------------------------------ SEVM.run: try / except *)
+(* which `except` clause of the run loop an exception of Python class c reaches.  Classes that
+   are not in halmos' hierarchy (builtins: ValueError, UnicodeDecodeError, NotImplementedError,
+   ...) have no halmos base, so no clause catches them: the exception leaves SEVM.run *)
+Definition bases_of (c : string) : list string :=
+  match find (fun x => String.eqb (fst x) c) exc_bases with Some (_, bs) => bs | None => [] end.
+Fixpoint ancestors (fuel : nat) (c : string) : list string :=
+  c :: match fuel with O => [] | S k => flat_map (ancestors k) (bases_of c) end.
+(* issubclass(c, b); the hierarchy is acyclic (a base is defined above its use), so its size is
+   enough fuel *)
+Definition is_subclass (c b : string) : bool := str_in b (ancestors (List.length exc_bases) c).
+Definition catch_clause (c : string) : option (string * (string * (bool * string))) :=
+  find (fun cl => is_subclass c (fst cl)) run_excepts.
+
+Inductive run_action :=
+  | ADrop         (* except InfeasiblePath: continue -- the state disappears *)
+  | AFrameError   (* ex.halt(data=ByteVec(), error=err); yield from finalize(ex) *)
+  | AStuck        (* ex.halt(data=None, error=err); yield from finalize(ex): a stuck context *)
+  | AFailYield    (* [halt unless halted]; yield ex -- no finalize *)
+  | AOther.       (* a clause this model does not understand *)
+Definition action_of (cl : string * (string * (bool * string))) : run_action :=
+  let '(_, (data, (_, leave))) := cl in
+  if String.eqb leave "drop" then (if String.eqb data "nohalt" then ADrop else AOther)
+  else if String.eqb leave "finalize" then
+    (if String.eqb data "none" then AStuck else if String.eqb data "empty" then AFrameError else AOther)
+  else if String.eqb leave "yield" then (if String.eqb data "empty" then AFailYield else AOther)
+  else AOther.
+(* None: the exception escapes SEVM.run (the generator dies: the states still on the worklist
+   are never yielded, run_test ends with an error) *)
+Definition catch_action (c : string) : option run_action :=
+  match catch_clause c with
+  | None => None
+  | Some cl => match action_of cl with AOther => None | a => Some a end
+  end.
 
 (* ------------------------------------------------------------------ branching (cheatcodes.handle) *)
 Inductive sat_result := Sat | Unsat | Unknown.
@@ -230,14 +285,17 @@ Section Branching.
   (* is_false(simplify(c)): c is literally the constant false *)
   Variable lit_false : cond -> bool.
 
-  (* call tree of the transaction, as far as failure reporting goes *)
-  Inductive cerr := ENone | EFailCheatcode | ERevert.
+  (* call tree of the transaction, as far as failure reporting goes.  EStuck = the context was
+     halted with output data None and a HalmosException (CallContext.is_stuck) *)
+  Inductive cerr := ENone | EFailCheatcode | ERevert | EStuck.
   Inductive ctx := Ctx (err : cerr) (subcalls : list ctx).
   Fixpoint is_global_fail_set (c : ctx) : bool :=
     match c with
     | Ctx e subs => (match e with EFailCheatcode => true | _ => false end) || existsb is_global_fail_set subs
     end.
   Definition halt_fail (c : ctx) : ctx := match c with Ctx _ subs => Ctx EFailCheatcode subs end.
+  Definition halt_stuck (c : ctx) : ctx := match c with Ctx _ subs => Ctx EStuck subs end.
+  Definition add_sub (c sub : ctx) : ctx := match c with Ctx e subs => Ctx e (subs ++ [sub]) end.
 
   (* an execution state: path condition + frame stack, innermost first (never empty in a run;
      the default covers the impossible empty case) *)
@@ -247,7 +305,9 @@ Section Branching.
 
   Inductive outcome :=
     | Yielded (e : exec)     (* FailCheatcode caught by SEVM.run: yield ex without finalize() *)
-    | Continues (e : exec).  (* pushed back on the worklist, executes the caller's next instruction *)
+    | Continues (e : exec)   (* pushed back on the worklist, executes the caller's next instruction *)
+    | Stuck (e : exec)       (* yielded by finalize() / the callee's callback with a stuck context *)
+    | FrameError (e : exec). (* the frame ended with an EVM error and was finalized (not followed further) *)
 
   (* the vm.assert* branch of hevm_cheat_code.handle + the delayed raise in SEVM.run *)
   Definition assert_step (e : exec) (c : cond) : list outcome :=
@@ -264,15 +324,75 @@ Section Branching.
   Definition assume_step (e : exec) (c : cond) : list outcome :=
     if lit_false c then [] else [Continues (mkExec (ex_path e ++ [c]) (ex_frames e))].
 
-  (* what run_test does with a yielded state: a counterexample query when the flag is set *)
+  (* except HalmosException: ex.halt(data=None, error=err); finalize(ex).  Without a callback
+     (outermost frame) the state itself is yielded; otherwise the callee's callback restores the
+     caller's context, appends the stuck subcall to its trace and -- `if subcall.is_stuck()` --
+     yields it at once: the caller is never resumed (its own output is still None: stuck) *)
+  Definition stuck_yield (e : exec) : exec :=
+    let top := halt_stuck (top_ctx e) in
+    match tl (ex_frames e) with
+    | [] => mkExec (ex_path e) [top]
+    | parent :: rest => mkExec (ex_path e) (add_sub parent top :: rest)
+    end.
+
+  (* one cheatcode call, as SEVM.run sees it *)
+  Inductive cheat :=
+    | KAssert (c : cond)       (* the handler returned VmAssertion(c, _) *)
+    | KAssume (c : cond)
+    | KRaise (cls : string).   (* the handler raised an exception of class cls *)
+  (* None = the exception escapes SEVM.run *)
+  Definition cheat_step (e : exec) (k : cheat) : option (list outcome) :=
+    match k with
+    | KAssert c => Some (assert_step e c)
+    | KAssume c => Some (assume_step e c)
+    | KRaise cls =>
+      match catch_action cls with
+      | Some ADrop => Some []
+      | Some AStuck => Some [Stuck (stuck_yield e)]
+      | Some AFrameError => Some [FrameError e]
+      | Some AFailYield => Some [Yielded (set_top e (halt_fail (top_ctx e)))]
+      | Some AOther | None => None
+      end
+    end.
+
+  Fixpoint opt_concat {A : Type} (l : list (option (list A))) : option (list A) :=
+    match l with
+    | [] => Some []
+    | None :: _ => None
+    | Some x :: r => match opt_concat r with Some y => Some (x ++ y) | None => None end
+    end.
+  (* a frame that issues the cheatcode calls p one after the other and then returns normally:
+     every state SEVM.run yields (the order of the worklist does not matter: an escaping
+     exception loses all of them) *)
+  Fixpoint run_prog (e : exec) (p : list cheat) {struct p} : option (list outcome) :=
+    match p with
+    | [] => Some [Continues e]
+    | k :: rest =>
+      match cheat_step e k with
+      | None => None
+      | Some outs =>
+        opt_concat (map (fun o => match o with Continues e' => run_prog e' rest | _ => Some [o] end) outs)
+      end
+    end.
+  (* the Foundry step a cheatcode call stands for *)
+  Definition pstep_of (k : cheat) : pstep Input :=
+    match k with KAssert c => PAssert Input c | KAssume c => PAssume Input c | KRaise _ => PUnsupported Input end.
+
+  (* what run_test does with a yielded state: the failure flag is looked at first (a
+     counterexample query), then is_stuck (reported as a stuck path: the test does not pass) *)
   Definition reported_failure (o : outcome) (i : Input) : bool :=
     match o with
-    | Yielded e => is_global_fail_set (top_ctx e) && sat_path (ex_path e) i
-    | Continues _ => false
+    | Yielded e | Stuck e => is_global_fail_set (top_ctx e) && sat_path (ex_path e) i
+    | Continues _ | FrameError _ => false
+    end.
+  Definition reported_stuck (o : outcome) (i : Input) : bool :=
+    match o with
+    | Stuck e => negb (is_global_fail_set (top_ctx e)) && sat_path (ex_path e) i
+    | _ => false
     end.
   Definition continues_with (o : outcome) (i : Input) : bool :=
     match o with
     | Continues e => sat_path (ex_path e) i
-    | Yielded _ => false
+    | _ => false
     end.
 End Branching.
